@@ -22,7 +22,7 @@ def lookupNat (l : List (Nat × Nat)) (k : Nat) : Option Nat := (l.find? (·.1 =
 abbrev Scripts := List (Nat × List Act)
 def Scripts.get (s : Scripts) (hid : Nat) : List Act := ((s.find? (·.1 = hid)).map (·.2)).getD []
 
-def hXTrace := bytesOfString "X-Trace"
+def hXTrace : Bytes := [88, 45, 84, 114, 97, 99, 101]   -- "X-Trace"
 
 /-- The write script of a handler. `none` = calling it is a nil call (runtime fault). -/
 def Handler.script (scripts : Scripts) (h : Handler) (allow : Bytes) : Option (List Act) :=
